@@ -12,7 +12,7 @@ EXPLANATION = (
     "of true; (R4) CYCLE-COVER - the production call graph (calls, closures, reified and promoted fn pointers) becomes "
     "acyclic once the memoising wrappers are removed, i.e. every recursion of the grammar passes a memo point. Tree "
     "equality with/without cache and the linear bound itself are measured quantities and are not decided.")
-EXPLANATION += ' Further clause: (R6) MEMO-MONOTONE - Context.cache is written by one insert site and never cleared, evicted or re-assigned, and storing/hitting are conditional on the bypass switch only.'
+EXPLANATION += ' Further clause: (R6) MEMO-MONOTONE - Context.cache is written by one insert site and never cleared, evicted or re-assigned, and storing/hitting are conditional on the bypass switch only. (R7) HIT-CONSTANT / RESULT-SHARED - lookup() does no token work on a hit; a memoising wrapper returns the memoised result untouched.'
 TECHNIQUE = "static analysis: call-graph SCC rule + MIR parameter provenance + HIR constant census"
 
 
